@@ -286,6 +286,7 @@ package node
 // code emitted for the statement contains the conditional jump that tests (and type-checks) the condition.
 //@ fun isCondJump(i bytecode.Type) bool := bcop(i) == bytecode.JMPF || bcop(i) == bytecode.JMPT
 //@ func (If).byteCode [C05,C12,C09] implements ByteCoder.byteCode
+//@   ensures[value_reported;C09,C12,C05] !fl.Data().Discard && !fl.Data().Returning ==> bck(result, srcsel) == bytecode.AddrStck   // an if used for its value always leaves one on the stack (the true case's, or nil when the condition is false) and says so
 //@   atcall bytecode.EncodeSrc(1, bytecode.AddrImm, noResultAddr with (callee_srcAddr int) requires[discarded_value_dropped;C09] (discard && !returning && tcInstr.Src0() == bytecode.AddrStck) ==> bcop((*cr.CS)[len(*cr.CS)-1]) == bytecode.POP
 //@   atcall condition(i.Condition with (callee_falsey bool) requires[true_case_follows_the_test;C12,C01] callee_falsey   // the code right after the jump is the true case: the jump must be the one taken when the condition is false
 //@   assumes[unfold] exprOK(i.Condition) && wfAST(i.TrueCase) && (dyntype(i.Condition) == typeid[UnOp]() ==> exprOK(i.Condition.(UnOp).Target))
